@@ -133,6 +133,8 @@ type Call struct {
 	PreTimer     VTimer
 	// counters at call start (index into node log)
 	LogStart int
+	fp       string
+	fpSet    bool
 }
 
 // Node is one library instance together with its application.
@@ -169,17 +171,22 @@ type Node struct {
 	Log  []Event
 	Cur  *Call
 	Seen map[uint32][]Payload // payloads handed to OnReceive (incl. embedded), by height
+	Direct map[uint32][]Payload // payloads handed to OnReceive directly, by height
 	Own  map[uint32][]Payload // payloads broadcast, by height
 
 	// per-height bookkeeping used by monitors
 	Accepted    map[uint32][]*vt.Block // blocks for which ProcessBlock returned nil
 	PreAccepted map[uint32]int
 	Requested   []vt.H // union of RequestTx arguments since the last proposal was stored
+	Callbacks   int    // number of callback invocations so far
 }
 
 func (n *Node) Now() time.Time { return n.W.Clock.Add(n.Offset) }
 
 func (n *Node) ev(k EvKind, p Payload, s string) {
+	if k != EvCall {
+		n.Callbacks++
+	}
 	if !n.W.KeepLog {
 		return
 	}
@@ -555,6 +562,7 @@ func trimStack(b []byte) string {
 
 func (n *Node) remember(p Payload) {
 	n.Seen[p.Ht] = append(n.Seen[p.Ht], p)
+	n.Direct[p.Ht] = append(n.Direct[p.Ht], p)
 	if rm, ok := p.Body.(*vt.RecoveryMessage); ok {
 		for _, e := range rm.Embedded {
 			n.Seen[e.Ht] = append(n.Seen[e.Ht], e)
@@ -592,6 +600,11 @@ func (n *Node) gcHistory() {
 	for h := range n.Seen {
 		if h <= n.Tip {
 			delete(n.Seen, h)
+		}
+	}
+	for h := range n.Direct {
+		if h <= n.Tip {
+			delete(n.Direct, h)
 		}
 	}
 	for h := range n.Own {
